@@ -9,6 +9,7 @@ import (
 	sdk "github.com/cosmos/cosmos-sdk/types"
 
 	clienttypes "github.com/cosmos/ibc-go/v11/modules/core/02-client/types"
+	clientv2types "github.com/cosmos/ibc-go/v11/modules/core/02-client/v2/types"
 	channeltypes "github.com/cosmos/ibc-go/v11/modules/core/04-channel/types"
 	channeltypesv2 "github.com/cosmos/ibc-go/v11/modules/core/04-channel/v2/types"
 	host "github.com/cosmos/ibc-go/v11/modules/core/24-host"
@@ -83,6 +84,32 @@ func (p *Core) Exec(w *sim.World, op sim.Op) {
 		p.execAttack(op)
 	case "grant":
 		p.execGrant(op)
+	case "rereg":
+		// the creator (N=0) or a stranger (N=1) submits the counterparty registration again,
+		// byte for byte what was registered at setup
+		r := p.route(op.P)
+		if r == nil || !r.V2 || r.Kind == "v2a" {
+			w.Noop()
+			return
+		}
+		e := int(op.X & 1)
+		c := r.Chain[e]
+		signer := c.Accounts[1]
+		if op.N == 1 {
+			signer = c.Accounts[9]
+		}
+		if signer.InPool() {
+			p.block(c.Idx)
+		}
+		msg := clientv2types.NewMsgRegisterCounterparty(r.ID[e], [][]byte{[]byte("ibc"), []byte("")}, r.ID[1-e], signer.String())
+		c.Submit(&sim.TxSpec{Msgs: []sdk.Msg{msg}, Signer: signer, Label: "rereg"})
+		p.tick(time.Second)
+		res := p.block(c.Idx)[0]
+		w.Stats.Probe("counterparty_registration_replayed")
+		if res.OK() {
+			w.Violate("C46", "counterparty-registered-twice", "", fmt.Sprintf("%s: MsgRegisterCounterparty for %s accepted a second time (signer %s)", c.ID, r.ID[e], signer.Name))
+			w.Stats.Probe("counterparty_registration_replay_ACCEPTED")
+		}
 	case "lhv":
 		p.execLocalVerify(op)
 	case "lhop":
